@@ -143,6 +143,8 @@ def run_task(task, kf):
         hs = [_null_harness(task["i"], task["b"])]
     elif w == "ndjson":
         hs = [_stream_harness(task["k"], task["bad"], task["b"], task["mode"], e) for e in (0, 2, 4)]
+        if task["mode"][0] == "d" and task["k"] >= 2:
+            hs += [_stream_harness(task["k"], task["bad"], task["b"], task["mode"], e) for e in ((5, 7) if task["b"] else (5, 6))]
     elif w == "slurp":
         hs = [_stream_harness(1, [False], task["b"], ["p", "jq"], e, slurp=True) for e in (0, 4)]
     elif w == "args":
@@ -235,7 +237,10 @@ def _null_harness(i, b):
     return Harness(id=f"C20/null/{src}/{'b' if b else 'plain'}", vars={"x": X}, pre=[X >= MIN64, X <= MAX64], run=run, witness=witness, max_paths=40)
 
 
-STREAM_EXPRS = ["{v}.a > 5", "{v}.a + 1", "10 / {v}.a > 1", "{v}.a", "{v}.a > 0 ? {v}.b : {v}.a"]
+STREAM_EXPRS = ["{v}.a > 5", "{v}.a + 1", "10 / {v}.a > 1", "{v}.a", "{v}.a > 0 ? {v}.b : {v}.a",
+                # documents of differing shape (key `c` only in every other document): index >= HETERO
+                "has({v}.c) ? {v}.a : 0", "size({v}) + {v}.a % 2", "has({v}.c)"]
+HETERO = 5
 
 
 def _stream_harness(k, bad, b, mode, ei, slurp=False):
@@ -256,7 +261,10 @@ def _stream_harness(k, bad, b, mode, ei, slurp=False):
         lines = []
         for i in range(k):
             key = f"@DOC{i}"
-            JSON.docs[key] = BAD if bad[i] else {"a": mk(SInt, A[i], vals[f"a{i}"]), "b": 7}
+            doc = {"a": mk(SInt, A[i], vals[f"a{i}"]), "b": 7}
+            if ei >= HETERO and i % 2 == 0:
+                doc["c"] = 1
+            JSON.docs[key] = BAD if bad[i] else doc
             lines.append(key + "\n")
         return lines
 
@@ -292,7 +300,7 @@ def _stream_harness(k, bad, b, mode, ei, slurp=False):
         return obs
 
     def witness(vals):
-        return {"check": "c20.stream", "args": enc({"src": src, "k": k, "bad": bad, "b": b, "mode": mode, "slurp": slurp, "vals": vals})}
+        return {"check": "c20.stream", "args": enc({"src": src, "k": k, "bad": bad, "b": b, "mode": mode, "slurp": slurp, "vals": vals, "hetero": ei >= HETERO})}
 
     return Harness(id=f"C20/{'slurp' if slurp else 'ndjson'}/{k}/{''.join('x' if t else '.' for t in bad)}/{'b' if b else 'plain'}/{opt}:{src}", vars=vars, pre=pre, run=run,
                    witness=witness, max_paths=60)
